@@ -4,11 +4,12 @@ EXTENDS Naturals, Sequences, FiniteSets, TLC, Json
 VARIABLES cfg
 EqTypes == {"ODE", "statio_PDE", "nonstatio_PDE"}
 Pinn == [kind : {"net_struct"}, wrapper : {"pinn", "hyper"}, eq_type : EqTypes, nout : 1..3, it : {"none", "shift"}, ot : {"none", "scale"},
-         shared : {"none", "first", "last2"}, pform : {"full", "bare"}, tform : {"scalar", "one"}, depth : 1..2, act : {"id", "sq"}, dimx : 1..2]
+         shared : {"none", "first", "last2", "lastint", "firstint"}, pform : {"full", "bare"}, tform : {"scalar", "one"}, depth : 1..2, act : {"id", "sq"}, dimx : 1..2]
 PinnOK(c) == /\ (c.eq_type = "ODE" => c.dimx = 1)
              /\ (c.tform = "scalar" => c.eq_type = "ODE")
              /\ (c.pform = "bare" => c.it = "none" /\ c.ot = "none" /\ c.wrapper = "pinn")
              /\ (c.shared = "first" => c.nout >= 2) /\ (c.shared = "last2" => c.nout = 3)
+             /\ (c.shared \in {"lastint", "firstint"} => c.nout >= 2 /\ c.wrapper = "pinn")    \* a plain integer as output slice (jnp.s_[-1], jnp.s_[0])
              /\ (c.wrapper = "hyper" => c.shared \in {"none", "first"} /\ c.tform = "one" /\ c.dimx = 1)
 Spinn == [kind : {"net_struct"}, wrapper : {"spinn"}, eq_type : {"statio_PDE", "nonstatio_PDE"}, d : 1..3, r : 1..3, m : 1..2, b : 1..3,
           depth : 1..2, act : {"id", "sq"}, pform : {"full", "bare"}]
